@@ -19,8 +19,20 @@ class Violation(Exception):
         self.detail = detail
 
 
-class Inconclusive(Exception):
-    """Raised by a case that could not be judged (e.g. watchdog under load); never a violation."""
+try:
+    from hypothesis.errors import UnsatisfiedAssumption as _Unsat
+except Exception:                                  # tools run under the system python
+    _Unsat = Exception
+
+
+class Inconclusive(_Unsat):
+    """Raised by a case that could not be judged (e.g. watchdog under load); never a violation.  Inside a Hypothesis
+    test it counts as a rejected example (no shrinking, the chunk goes on); every instance is counted in the evidence."""
+    count = 0
+
+    def __init__(self, *a):
+        super().__init__(*a[:1])
+        Inconclusive.count += 1
 
 
 class Hang(Exception):
@@ -71,7 +83,7 @@ class Recorder:
     def dump(self):
         return dict(evaluations=self.evaluations, nontrivial=sorted(self.nontrivial), classes=self.classes, samples=self.samples,
                     violations=self.violations, known_hits=self.known_hits, excluded=self.excluded, other=self.other,
-                    inconclusive=self.inconclusive, notes=self.notes)
+                    inconclusive=self.inconclusive + Inconclusive.count, notes=self.notes)
 
 
 class Ctx:
@@ -150,8 +162,12 @@ class Ctx:
                 if stop_on_violation:
                     self.stop = True
             except Inconclusive:
-                self.rec.inconclusive += 1
+                pass
             except Exception as e:
+                if type(e).__name__ == 'Unsatisfiable' and Inconclusive.count:
+                    self.rec.notes.append('a chunk produced only unjudgeable cases (%d so far)' % Inconclusive.count)
+                    done += nex; ci += 1
+                    continue
                 # Hypothesis wraps failures it could not reproduce identically (Flaky / FlakyFailure groups): dig out the
                 # Violation it saw and let the 3x replay confirmation decide whether it is reported
                 v = _find_violation(e)
@@ -172,7 +188,7 @@ class Ctx:
                         self.report(v, None)
                         self.stop = True
                     except Inconclusive:
-                        self.rec.inconclusive += 1
+                        pass
                 self.hangs = []
                 self.abort_chunk = False
             done += nex
